@@ -1,7 +1,7 @@
 """Property registry: which units / engines decide each property, and what is assumed."""
 
 A_ARK1 = "A-ARK-1: ark_ff::Fp<MontBackend<_,N>> arithmetic (+ - * neg square inverse from_le_bytes_mod_order serialize_compressed new new_unchecked) behaves as Z/p on the canonical value; limbs are the Montgomery form"
-A_STD = "A-STD: std stand-ins (Iterator::fold trace contract, u128::from(bool), array reverse/cmp, Hasher::write) as stated in preludes/std_standins.rs"
+A_STD = "A-STD: std stand-ins as stated in preludes/std_standins.rs, chunk_lemmas.rs, ord_lemmas.rs and the unit texts: Iterator::fold trace contract, u128::from(bool), array reverse / lexicographic cmp, Hasher::write, slice chunks / iter / map / rev / fold / collect (the iterator chains are desugared to index loops by R25/R28), to_vec, copy_from_slice on a prefix, u64 <-> little-endian bytes"
 M_PRIME = "M-PRIME: q, r, p are prime (a * a^(p-2) == 1 for a != 0)"
 A_WF = "A-WF: every Fq/Fr/Fp value in circulation satisfies the wrapper invariant (limbs < p); from_montgomery_limbs is only called with reduced limbs (all literal call sites in /repo are checked by compute under C17)"
 
@@ -70,7 +70,7 @@ PROPS["C17"] = dict(units=["consts"], assumptions=[M_PRIME + " (the certified fa
 for _p in ("C04", "C05", "C06", "C07", "C12"):
     PROPS[_p]["units"] = list(PROPS[_p]["units"]) + ["consts"]
 
-A_ARK4 = "A-ARK-4: each ark_r1cs_std primitive used (FpVar new_witness/new_constant/square/inverse/negate/is_eq/conditionally_select/conditional_enforce_equal/to_bits_le/+,-,*; Boolean new_witness/and/or/not/is_eq/enforce_equal/select; AffineVar::new) is a sound and complete gadget for the operation it names (preludes/r1cs.rs)"
+A_ARK4 = "A-ARK-4: each ark_r1cs_std primitive used (FpVar new_witness/new_constant/square/inverse/negate/is_eq/conditionally_select/conditional_enforce_equal/to_bits_le/+,-,*; Boolean new_witness/and/or/not/is_eq/enforce_equal/select; AffineVar::new; AffineVar add / sub / double_in_place / negate / zero / constant / new_variable_omit_prime_order_check as gadgets for the twisted Edwards group law on curve points, preludes/r1cs_group.rs) is a sound and complete gadget for the operation it names (preludes/r1cs.rs); a variable allocated in Constant mode has no constraint system and witnessing into it fails; EqGadget::enforce_equal and AllocVar::new_input are the arkworks default methods over the functions proved here; in the soundness reading a panic (expect) during synthesis leaves no circuit to reason about"
 PROPS["C14"] = dict(units=["r1cs_sound", "r1cs_fwd_sound", "r1cs_outer_sound"], assumptions=[A_ARK4, M_PRIME + " (no zero divisors; a non-zero square has exactly two roots; zeta is a non-square)", M_DECAF, A_WF],
     explanation="the verbatim gadget code is verified with every witness value left arbitrary and every enforced constraint taken as a fact: any satisfying assignment makes isqrt / sign / abs / encode / decode / Elligator / equality / select outputs satisfy the specification's relations; the four AllocVar::new_variable functions (inner AllocVar<Element>; outer AllocVar<Element>, AllocVar<AffinePoint>, AllocVar<Fq>) are verified with the offered point, the offered encoding and both isqrt hints arbitrary: a Witness-mode variable is always the in-circuit decoding of some field element or an on-curve point the equality gadget identifies with it; known finding D6 is the region den = 0 of isqrt (decode of s = q-1)",
     not_decided=["CurveVar::new_variable_omit_prime_order_check of both layers (by its name it performs no group check; callers that need one go through new_variable, which is proved): bounded probe r1cs.alloc",
@@ -85,7 +85,7 @@ PROPS["C13"] = dict(units=["r1cs_compl", "r1cs_fwd_compl", "r1cs_outer_compl"], 
 M_SQRT = "M-SQRT (retired): both square-root routines are proved -- the Sarkar table routine of the default build in unit ark_invsqrt, the constant-time Tonelli-Shanks `our_sqrt` of the minimal build in unit min_invsqrt (loop invariant z^2 = t x, t^(2^(i-1)) = 1, c^(2^(i-1)) = -1)"
 M_ROOTS8 = "M-ROOTS8: h = g^(2^39) is a primitive 256th root of unity in the cyclic group Fq^*, hence every x with x^256 = 1 is an inverse power h^(-nu), nu < 256 (a statement about the constants q and g only; g^(2^47) = 1 != g^(2^46) is proved by compute)"
 PROPS["C09"] = dict(units=["ark_invsqrt", "min_invsqrt", "consts"],
-    assumptions=[M_SQRT, M_ROOTS8, M_PRIME + " (Euler's criterion, no zero divisors, Fermat)", A_WF, A_ARK1 + " (incl. the generic Field::pow and Field::inverse of arkworks)",
+    assumptions=[M_ROOTS8, M_PRIME + " (Euler's criterion, no zero divisors, Fermat)", A_WF, A_ARK1 + " (incl. the generic Field::pow and Field::inverse of arkworks)",
                  "A-STD for invsqrt.rs: hashbrown::HashMap<Fq,u64> is a finite map keyed by the field value (insert / index, index panics on a miss), Vec push/pop, Vec -> Box<[T;256]> conversion panics unless the length is 256, u64::pow(2, e) = 2^e for e < 64, From<u64> for BigInteger"],
     explanation="default build: Fq::sqrt_ratio_zeta (Sarkar 2020, 7+8+8+8+8+8 bit windows) is proved for ALL num, den: every table lookup hits (each looked-up value is shown to be a 256th root of unity from the previous lookup's equation; the first one from x5 = (num t)^M and Fermat), every table index is in bounds, the digit accumulator never overflows, and the result meets the four-case contract isqrt_ok by ring algebra from the last lookup's equation; SquareRootTables::new is proved to establish the table invariant (six 256-entry power tables, lookup table sound and -- by M-ROOTS8 -- complete). minimal build: our_sqrt (constant-time Tonelli-Shanks) returns a square root of every non-zero square by loop invariants (outer: z^2 = t x, t^(2^(i-1)) = 1, c^(2^(i-1)) = -1; inner: b = t^(2^(j-1))), non_arkworks_sqrt_ratio_zeta ensures isqrt_ok for all num, den; pow_le_limbs == mpow(x, limbs_val) by loop invariant for any slice length; constants (zeta non-square, M, (M-1)/2, zeta^((1-M)/2), g = zeta^M, Fr (r+1)/4) by compute",
     not_decided=["Field::sqrt / legendre (arkworks generic routines over SQRT_PRECOMP, A-ARK-1; constants proved under C17) -- bounded probe field.*",
